@@ -12,7 +12,8 @@ use vcore::{Json, Report, Rng};
 
 #[derive(Clone, Debug)]
 struct Params {
-    /// 0 first transmission (stamps around expiry), 1 repair after loss, 2 history to late joiner, 3 delayed in network
+    /// 0 first transmission (stamps around expiry), 1 repair after loss, 2 history to late joiner, 3 delayed in network,
+    /// 4 first transmission lost, the repair (sent while the sample is alive) delayed in the network
     path: u32,
     lifespan_ms: i64,
     n_writes: u32,
@@ -26,7 +27,7 @@ struct Params {
 }
 
 fn path_name(p: u32) -> &'static str {
-    ["first", "repair", "history", "delayed_in_network"][p as usize]
+    ["first", "repair", "history", "delayed_in_network", "repair_delayed_in_network"][p as usize]
 }
 
 impl Params {
@@ -51,7 +52,7 @@ impl Params {
 }
 
 fn gen_params(rng: &mut Rng) -> Params {
-    let path = rng.below(4) as u32;
+    let path = rng.below(5) as u32;
     let lifespan_ms = *rng.pick(&[10i64, 60, 200, 1000, 5000]);
     let offs: Vec<i64> = match path {
         0 => vec![0, -lifespan_ms / 2, -lifespan_ms + 1, -lifespan_ms - 1, -lifespan_ms - 100, -2 * lifespan_ms, 50, -100_000],
@@ -68,7 +69,7 @@ fn gen_params(rng: &mut Rng) -> Params {
             1 => lifespan_ms + 20 + rng.below(300) as i64,
             _ => 3 * lifespan_ms + 100,
         },
-        reliable_reader: path == 1 || path == 2 || rng.bool(),
+        reliable_reader: path == 1 || path == 2 || path == 4 || rng.bool(),
         keep_last: if rng.bool() { None } else { Some(1 + rng.below(3) as u32) },
         policy: pick_policy(rng),
         jitter: *rng.pick(&[0i64, 1000, 100_000]),
@@ -171,6 +172,27 @@ async fn scenario(w: World, p: Params) -> Outcome {
             w.net.set_policy(Some(Box::new(move |pkt: &Pkt, _r: &mut Rng| {
                 if pkt.class == Class::User && pkt.now < hold_until && pkt.src == 0 {
                     return vec![];
+                }
+                vec![Delivery::after(BASE_LATENCY)]
+            })));
+        }
+        4 => {
+            // the first datagram carrying a given sample is lost; every later datagram carrying it (the
+            // repair the reader asked for, sent while the sample is still alive) is held back until the
+            // end of the hold window; HEARTBEATs / ACKNACKs travel normally
+            let seen: std::sync::Arc<std::sync::Mutex<std::collections::BTreeSet<i64>>> = Default::default();
+            w.net.set_policy(Some(Box::new(move |pkt: &Pkt, _r: &mut Rng| {
+                if pkt.class == Class::User && pkt.src == 0 {
+                    let sns: Vec<i64> = pkt.walk.subs.iter().filter(|s| s.id == rtpswalk::DATA || s.id == rtpswalk::DATA_FRAG).map(|s| s.sn).collect();
+                    if !sns.is_empty() {
+                        let first_time = sns.iter().any(|sn| seen.lock().unwrap().insert(*sn));
+                        if first_time {
+                            return vec![];
+                        }
+                        if pkt.now < hold_until {
+                            return vec![Delivery::after(hold_until - pkt.now + BASE_LATENCY)];
+                        }
+                    }
                 }
                 vec![Delivery::after(BASE_LATENCY)]
             })));
